@@ -152,7 +152,9 @@ Definition sync_queue (s : st) (q : positive) (view : qobj) (fn : nat -> qstate)
     let s2 := set_idx s1 (filter (fun qp => negb (bool_decide (fst qp = q) &&
                                                     bool_decide (pgl s1 !! snd qp = None))) (idx s1)) in
     let new := fn n in
-    if bool_decide (new = q_state v1) then sync_hier s2 q v1
+    (* compared with the state of the object the update function was chosen for (the
+       lister's), not with the object updateQueueParent handed back *)
+    if bool_decide (new = q_state view) then sync_hier s2 q v1
     else match apply_state (srv s2) q new with
          | None => (s2, false)
          | Some (m, o') => sync_hier (set_srv s2 m) q o'
@@ -313,7 +315,9 @@ Definition step (s : st) (e : ev) : st * outcome :=
       | Some o, None => (push (set_lst s (<[q := o]> (lst s))) (sync_req q), ONone)          (* addQueue *)
       | Some o, Some o0 =>
           let s1 := set_lst s (<[q := o]> (lst s)) in
-          if bool_decide (q_parent o0 = q_parent o) then (s1, ONone) else (push s1 (sync_req q), ONone)  (* updateQueue *)
+          (* updateQueue: re-sync on a parent change or a change of the closed-by-parent marker *)
+          if bool_decide (q_parent o0 = q_parent o) && bool_decide (cbp_of (q_ann o0) = cbp_of (q_ann o))
+          then (s1, ONone) else (push s1 (sync_req q), ONone)
       | None, Some _ =>
           (set_idx (set_lst s (delete q (lst s))) (filter (fun qp => negb (bool_decide (fst qp = q))) (idx s)), ONone) (* deleteQueue *)
       | None, None => (s, ONone)
